@@ -4,13 +4,15 @@ package vrt
 
 // Stand-in for protobuf encoding under the symbolic engine (protobuf-go is reflection + unsafe and cannot be
 // interpreted): an injective, length-prefixed fixed-width codec for the four message types the repository
-// writes. Properties of the real encoding that the code under test relies on are kept: empty input decodes to
-// the zero message without error, an empty bytes field decodes to nil, anything malformed is an error.
+// writes (all of their fields, the legacy string fields of the WAL records included). Properties of the real encoding that the code under test relies on are kept: empty input decodes to
+// the zero message without error, an empty bytes field decodes to nil, anything malformed is an error,
+// a string field that is not valid UTF-8 is refused by Marshal and Unmarshal.
 // Natively the real protobuf library runs.
 
 import (
 	"encoding/binary"
 	"errors"
+	"unicode/utf8"
 
 	sdb "github.com/thomasjungblut/go-sstables/simpledb/proto"
 	sst "github.com/thomasjungblut/go-sstables/sstables/proto"
@@ -18,6 +20,7 @@ import (
 )
 
 var ErrCodec = errors.New("codec: cannot parse")
+var ErrInvalidUTF8 = errors.New("codec: string field contains invalid UTF-8")
 
 func putBytes(out []byte, b []byte) []byte {
 	out = append(out, byte(len(b)))
@@ -85,13 +88,23 @@ func CodecMarshal(m proto.Message) ([]byte, error) {
 	case *sdb.WalMutation:
 		switch mu := x.Mutation.(type) {
 		case *sdb.WalMutation_Addition:
+			// proto3 string fields must be valid UTF-8: the real Marshal refuses anything else
+			if !utf8.ValidString(mu.Addition.Key) || !utf8.ValidString(mu.Addition.Value) {
+				return nil, ErrInvalidUTF8
+			}
 			out := []byte{3}
 			out = putBytes(out, mu.Addition.KeyBytes)
 			out = putBytes(out, mu.Addition.ValueBytes)
+			out = putBytes(out, []byte(mu.Addition.Key))
+			out = putBytes(out, []byte(mu.Addition.Value))
 			return out, nil
 		case *sdb.WalMutation_DeleteTombStone:
+			if !utf8.ValidString(mu.DeleteTombStone.Key) {
+				return nil, ErrInvalidUTF8
+			}
 			out := []byte{4}
 			out = putBytes(out, mu.DeleteTombStone.KeyBytes)
+			out = putBytes(out, []byte(mu.DeleteTombStone.Key))
 			return out, nil
 		}
 		return []byte{}, nil
@@ -158,10 +171,19 @@ func CodecUnmarshal(b []byte, m proto.Message) error {
 		case 3:
 			k := d.bytes()
 			v := d.bytes()
-			x.Mutation = &sdb.WalMutation_Addition{Addition: &sdb.UpsertMutation{KeyBytes: k, ValueBytes: v}}
+			ks := string(d.bytes())
+			vs := string(d.bytes())
+			if !utf8.ValidString(ks) || !utf8.ValidString(vs) {
+				return ErrInvalidUTF8
+			}
+			x.Mutation = &sdb.WalMutation_Addition{Addition: &sdb.UpsertMutation{KeyBytes: k, ValueBytes: v, Key: ks, Value: vs}}
 		case 4:
 			k := d.bytes()
-			x.Mutation = &sdb.WalMutation_DeleteTombStone{DeleteTombStone: &sdb.DeleteTombstoneMutation{KeyBytes: k}}
+			ks := string(d.bytes())
+			if !utf8.ValidString(ks) {
+				return ErrInvalidUTF8
+			}
+			x.Mutation = &sdb.WalMutation_DeleteTombStone{DeleteTombStone: &sdb.DeleteTombstoneMutation{KeyBytes: k, Key: ks}}
 		default:
 			return ErrCodec
 		}
